@@ -9,9 +9,9 @@ mkdir -p $d && cp -r /repo/src $d/src && cp /repo/.gitignore $d/ 2>/dev/null
 ( cd $d && git init -q . && git apply "$patch" ) || { echo "patch does not apply"; rm -rf $d; exit 9; }
 cd /verif
 for id in "$@"; do
-  FINAM_SRC=$d/src VERIF_WALL=${VERIF_WALL:-90} timeout 600 ./check "$id" --tier quick > /tmp/mut-$id.out 2>&1
+  FINAM_SRC=$d/src VERIF_WALL=${VERIF_WALL:-90} timeout 600 ./check "$id" --tier quick > /tmp/mut-$id-$$.out 2>&1
   rc=$?
   echo "== $id exit=$rc"
-  grep -E "^  violation|^VIOLATION|HARNESS" /tmp/mut-$id.out | cut -c1-260 | head -6
+  grep -E "^  violation|^VIOLATION|HARNESS" /tmp/mut-$id-$$.out | cut -c1-260 | head -6
 done
 rm -rf $d
